@@ -161,6 +161,11 @@ impl IdC {
 pub const ED25519: u32 = 101;
 pub const SECP256R1: u32 = 102;
 pub const SECP256K1: u32 = 103;
+// a second scheme number per verifier (scheme numbers are the issuer's own business): lets ONE
+// public key be a signing key under TWO schemes
+pub const ED25519_B: u32 = 111;
+pub const SECP256R1_B: u32 = 112;
+pub const SECP256K1_B: u32 = 113;
 
 #[contract]
 pub struct IssC;
@@ -193,9 +198,9 @@ fn check_with<Ver: SignatureVerifier>(
 impl ClaimIssuer for IssC {
     fn is_claim_valid(e: &Env, identity: Address, claim_topic: u32, scheme: u32, sig_data: Bytes, claim_data: Bytes) {
         match scheme {
-            ED25519 => check_with::<Ed25519Verifier>(e, &identity, claim_topic, scheme, &sig_data, &claim_data, |d| d.public_key.clone().into()),
-            SECP256R1 => check_with::<Secp256r1Verifier>(e, &identity, claim_topic, scheme, &sig_data, &claim_data, |d| d.public_key.clone().into()),
-            SECP256K1 => check_with::<Secp256k1Verifier>(e, &identity, claim_topic, scheme, &sig_data, &claim_data, |d| d.public_key.clone().into()),
+            ED25519 | ED25519_B => check_with::<Ed25519Verifier>(e, &identity, claim_topic, scheme, &sig_data, &claim_data, |d| d.public_key.clone().into()),
+            SECP256R1 | SECP256R1_B => check_with::<Secp256r1Verifier>(e, &identity, claim_topic, scheme, &sig_data, &claim_data, |d| d.public_key.clone().into()),
+            SECP256K1 | SECP256K1_B => check_with::<Secp256k1Verifier>(e, &identity, claim_topic, scheme, &sig_data, &claim_data, |d| d.public_key.clone().into()),
             _ => panic_with_error!(e, ClaimIssuerError::SigDataMismatch),
         }
     }
@@ -267,7 +272,17 @@ const IDS: [usize; 2] = [8, 9];
 const ID_CANDS: [usize; 3] = [8, 9, 10];
 const ACCOUNTS: [usize; 3] = [11, 12, 13];
 const TOPICS: [u32; 3] = [1, 2, 7];
-const SCHEMES: [u32; 3] = [ED25519, SECP256R1, SECP256K1];
+const SCHEMES: [u32; 6] = [ED25519, SECP256R1, SECP256K1, ED25519_B, SECP256R1_B, SECP256K1_B];
+
+/// the verifier a scheme number selects (0: none)
+fn alg_of(scheme: u32) -> u32 {
+    match scheme {
+        ED25519 | ED25519_B => ED25519,
+        SECP256R1 | SECP256R1_B => SECP256R1,
+        SECP256K1 | SECP256K1_B => SECP256K1,
+        _ => 0,
+    }
+}
 const NET: [u8; 32] = [7u8; 32];
 const OTHER_NET: [u8; 32] = [8u8; 32];
 const TS0: u64 = 1_700_000_000;
@@ -861,6 +876,12 @@ impl Sim {
         let scheme = self.keys[(k - 1) as usize].scheme();
         self.make_claim(i, topic, scheme, k, data, sm, 0, rng)
     }
+    /// the same, presented under scheme number `scheme`
+    fn good_claim_as(&mut self, i: usize, d: usize, topic: u32, k: u32, scheme: u32, payload: &[u8], rng: &mut Rng) -> ClaimSpec {
+        let mut c = self.good_claim(i, d, topic, k, self.ts + 5000, payload, rng);
+        c.scheme = scheme;
+        c
+    }
 }
 
 // ------------------------------------------------------------------------------------------
@@ -1048,6 +1069,62 @@ fn directed(t: &mut Trace, rng: &mut Rng) {
     s.remove_issuer(t, 0, 5);
     s.verify_op(t, 11);
 
+    // (3c) ONE public key as a signing key under TWO scheme numbers, for the same and for different
+    // topics; one (key, scheme) is removed: claims under the removed one must be refused, claims under
+    // the kept one must still be confirmed. Both removal orders, all three verifiers.
+    for (k, first_removed) in [(1u32, false), (1, true), (3, false), (5, false), (6, true)] {
+        t.seq(&format!("directed one key two schemes key={} remove_first={}", k, first_removed));
+        let mut s = Sim::new();
+        setup_basic(&mut s, t);
+        s.add_topic(t, 0, 1);
+        s.add_topic(t, 0, 2);
+        s.add_issuer(t, 0, 4, &[1, 2]);
+        let a = s.keys[(k - 1) as usize].scheme();
+        let b = a + 10;
+        s.allow_key(t, 4, k, a, 0, 1); // Topics(1) = [(k,a)]
+        s.allow_key(t, 4, k, b, 0, 1); // Topics(1) = [(k,a),(k,b)]
+        s.allow_key(t, 4, k, b, 0, 2); // other topic, scheme b only
+        let ca = s.good_claim_as(4, 8, 1, k, a, b"sa", rng);
+        let cb = s.good_claim_as(4, 8, 1, k, b, b"sb", rng);
+        let ca2 = s.good_claim_as(4, 8, 2, k, a, b"sa2", rng);
+        let cb2 = s.good_claim_as(4, 8, 2, k, b, b"sb2", rng);
+        let cb9 = s.good_claim_as(4, 9, 1, k, b, b"sb9", rng);
+        let ca9 = s.good_claim_as(4, 9, 1, k, a, b"sa9", rng);
+        s.valid(t, 8, &ca);
+        s.valid(t, 8, &cb);
+        s.valid(t, 8, &ca2); // scheme a is not allowed for topic 2
+        s.valid(t, 8, &cb2);
+        // identity 8 relies on scheme a for topic 1, identity 9 on scheme b; both use b for topic 2
+        s.add_claim(t, 8, &ca);
+        s.add_claim(t, 8, &cb2);
+        s.add_claim(t, 9, &cb9);
+        let cb29 = s.good_claim_as(4, 9, 2, k, b, b"sb29", rng);
+        s.add_claim(t, 9, &cb29);
+        s.verify_op(t, 11);
+        s.verify_op(t, 12);
+        let (gone, kept) = if first_removed { (a, b) } else { (b, a) };
+        s.remove_key(t, 4, k, gone, 0, 1);
+        s.valid(t, 8, if first_removed { &ca } else { &cb }); // removed (key, scheme): refused
+        s.valid(t, 8, if first_removed { &cb } else { &ca }); // kept (key, scheme): confirmed
+        s.valid(t, 9, if first_removed { &ca9 } else { &cb9 });
+        s.valid(t, 9, if first_removed { &cb9 } else { &ca9 });
+        s.valid(t, 8, &cb2); // topic 2 untouched
+        s.verify_op(t, 11);
+        s.verify_op(t, 12);
+        s.remove_key(t, 4, k, gone, 0, 1); // already gone
+        s.allow_key(t, 4, k, gone, 0, 1); // back
+        s.valid(t, 8, &ca);
+        s.valid(t, 8, &cb);
+        s.remove_key(t, 4, k, kept, 0, 1);
+        s.valid(t, 8, &ca);
+        s.valid(t, 8, &cb);
+        s.verify_op(t, 11);
+        s.verify_op(t, 12);
+        s.remove_key(t, 4, k, b, 0, 2);
+        s.valid(t, 8, &cb2);
+        s.verify_op(t, 11);
+    }
+
     // (4) tampering of every field, directly at the issuer
     for k in [1u32, 3, 5] {
         t.seq(&format!("directed tampering key={}", k));
@@ -1128,8 +1205,8 @@ fn subset(rng: &mut Rng, xs: &[u32]) -> Vec<u32> {
     v
 }
 
-fn own_keys(s: &Sim, i: usize, topic: u32) -> Vec<u32> {
-    s.allowed_keys(i, topic).iter().filter(|(k, sc)| *k >= 1 && *k <= 6 && s.keys[(*k - 1) as usize].scheme() == *sc).map(|(k, _)| *k).collect()
+fn own_keys(s: &Sim, i: usize, topic: u32) -> Vec<(u32, u32)> {
+    s.allowed_keys(i, topic).into_iter().filter(|(k, sc)| *k >= 1 && *k <= 6 && s.keys[(*k - 1) as usize].scheme() == alg_of(*sc)).collect()
 }
 
 fn gen_claim(s: &mut Sim, rng: &mut Rng, perturb: bool) -> (usize, ClaimSpec) {
@@ -1152,8 +1229,13 @@ fn gen_claim(s: &mut Sim, rng: &mut Rng, perturb: bool) -> (usize, ClaimSpec) {
             topic = c.1;
         }
     }
-    let own: Vec<u32> = if ISSUERS.contains(&i) { own_keys(s, i, topic) } else { vec![] };
-    let mut k = if !own.is_empty() && rng.chance(92) { *rng.pick(&own) } else { rng.range(1, 6) as u32 };
+    let own: Vec<(u32, u32)> = if ISSUERS.contains(&i) { own_keys(s, i, topic) } else { vec![] };
+    let (mut k, mut own_scheme) = if !own.is_empty() && rng.chance(92) {
+        let p = *rng.pick(&own);
+        (p.0, Some(p.1))
+    } else {
+        (rng.range(1, 6) as u32, None)
+    };
     let vu = match rng.below(20) {
         0 => s.ts + 1,
         1 => s.ts + 2,
@@ -1189,7 +1271,15 @@ fn gen_claim(s: &mut Sim, rng: &mut Rng, perturb: bool) -> (usize, ClaimSpec) {
             10 => mangle = 5,
             11 => mangle = 6,
             12 => scheme_override = Some(*rng.pick(&[ED25519, SECP256R1, SECP256K1, 104])),
-            13 => k = rng.range(1, 6) as u32,
+            13 => {
+                k = rng.range(1, 6) as u32;
+                own_scheme = None;
+            }
+            16 => {
+                // the same key under the verifier's other scheme number
+                let a = s.keys[(k - 1) as usize].scheme();
+                scheme_override = Some(if own_scheme == Some(a) { a + 10 } else { a });
+            }
             14 => {
                 let n = rng.below(16) as usize;
                 data.truncate(n);
@@ -1208,7 +1298,17 @@ fn gen_claim(s: &mut Sim, rng: &mut Rng, perturb: bool) -> (usize, ClaimSpec) {
             }
         }
     }
-    let scheme = scheme_override.unwrap_or(s.keys[(k - 1) as usize].scheme());
+    let native = s.keys[(k - 1) as usize].scheme();
+    let scheme = scheme_override.unwrap_or(match own_scheme {
+        Some(sc) if alg_of(sc) == native => sc,
+        _ => {
+            if rng.chance(80) {
+                native
+            } else {
+                native + 10
+            }
+        }
+    });
     let c = s.make_claim(i, topic, scheme, k, data, sm, mangle, rng);
     (d, c)
 }
@@ -1235,8 +1335,12 @@ fn random_seq(t: &mut Trace, rng: &mut Rng, label: &str, len: u64) {
         for &tp in TOPICS.iter() {
             if rng.chance(45) {
                 let k = rng.range(1, 6) as u32;
-                let sc = s.keys[(k - 1) as usize].scheme();
+                let sc = s.keys[(k - 1) as usize].scheme() + if rng.chance(25) { 10 } else { 0 };
                 s.allow_key(t, i, k, sc, 0, tp);
+                if rng.chance(20) {
+                    let sc2 = s.keys[(k - 1) as usize].scheme() + if sc > 110 { 0 } else { 10 };
+                    s.allow_key(t, i, k, sc2, 0, tp);
+                }
             }
         }
     }
@@ -1306,8 +1410,37 @@ fn random_seq(t: &mut Trace, rng: &mut Rng, label: &str, len: u64) {
                     tp = c.1;
                 }
             }
+            if rng.chance(25) {
+                // the key bytes of an existing signing key under ANOTHER scheme number, same or other topic
+                let mut cands = vec![];
+                for &ii in ISSUERS.iter() {
+                    for &tt in TOPICS.iter() {
+                        for (k, sc) in s.allowed_keys(ii, tt) {
+                            cands.push((ii, tt, k, sc));
+                        }
+                    }
+                }
+                if !cands.is_empty() {
+                    let (ii, tt, k, sc) = *rng.pick(&cands);
+                    let native = s.keys[(k - 1) as usize].scheme();
+                    let other = if rng.chance(75) {
+                        if sc == native { native + 10 } else { native }
+                    } else {
+                        *rng.pick(&SCHEMES)
+                    };
+                    let tp2 = if rng.chance(70) { tt } else { tp };
+                    s.allow_key(t, ii, k, other, reg, tp2);
+                    continue;
+                }
+            }
             let k = if rng.chance(4) { 0 } else { rng.range(1, 6) as u32 };
-            let sc = if k == 0 || rng.chance(8) { *rng.pick(&SCHEMES) } else { s.keys[(k - 1) as usize].scheme() };
+            let sc = if k == 0 || rng.chance(8) {
+                *rng.pick(&SCHEMES)
+            } else if rng.chance(35) {
+                s.keys[(k - 1) as usize].scheme() + 10
+            } else {
+                s.keys[(k - 1) as usize].scheme()
+            };
             s.allow_key(t, i, k, sc, reg, tp);
         } else if r < 40 {
             // remove a key that is there (state-derived), sometimes a random one
@@ -1441,7 +1574,7 @@ fn main() {
     let mut t = Trace::from_args();
     let seed = seed_from_env();
     let thorough = arg_str("--tier").as_deref() == Some("thorough");
-    let nseq = arg_u64("--seqs", if thorough { 160 } else { 22 });
+    let nseq = arg_u64("--seqs", if thorough { 150 } else { 17 });
     let len = arg_u64("--len", 60);
     let mut rng = Rng::new(seed);
     directed(&mut t, &mut rng);
